@@ -158,6 +158,8 @@ def body_x0block(E, n, m, with_h, r0_old):
             E.prove(nf1 == maxfun, 'C10:x0-exit:maxfun-message-is-true')
         if exit_info.flag == E.get('EXIT_SUCCESS'):
             E.prove(E.le(f, params("model.abs_tol"), tol=0), 'C10:x0-exit:small-objective-exit-is-true')
+            if with_h:
+                E.prove(E.le(f, params("model.abs_tol"), tol=0), 'C06:x0-exit:small-objective-test-includes-h')
 
 
 def body_restart_admission(E, n, m, preset):
